@@ -161,7 +161,7 @@ def expand(pool, key, calls, results):
                 gcm.append(dict(base, op="gcm.seal", pt=pool[call["b"]]))
             else:
                 gcm.append(dict(base, op="gcm.open", ct=pool[call["b"]], err=res.get("err", ""), err2="",
-                                nil_on_err=(res.get("err", "") == "" or res.get("out", []) == []), nil_on_err2=True, spill=[], spill_clean=True))
+                                nil_on_err=(res.get("err", "") == "" or res.get("out", []) == []), nil_on_err2=True, spill=[], spill_clean=True, prefix_after=[]))
         elif k in ("enc", "dec"):
             s = scen(sm4e, "concurrent_block")
             sm4e.append(dict(sc=s, op="sm4.newcipher", h="c", key=pool[key], asm=True, asm_available=True, err="",
